@@ -1,6 +1,7 @@
 package main
 
 import (
+	"go/types"
 	"strings"
 
 	"golang.org/x/tools/go/ssa"
@@ -236,6 +237,37 @@ func runC20(e *Engine, r *Report) {
 				hasLookup = true
 			}
 		})
+		// exact form: the settings are accepted only when the list maps *this*
+		// replica id to *this* host's raft address
+		var ridParam *ssa.Parameter
+		for _, p := range cs.Params {
+			if bt, ok := p.Type().Underlying().(*types.Basic); ok && bt.Kind() == types.Uint64 {
+				ridParam = p
+			}
+		}
+		if ridParam != nil {
+			ownLookup := func(idx int) VM {
+				return func(v ssa.Value) bool {
+					ex, ok := v.(*ssa.Extract)
+					if !ok || ex.Index != idx {
+						return false
+					}
+					lk, ok := ex.Tuple.(*ssa.Lookup)
+					return ok && stripConv(lk.Index) == ssa.Value(ridParam)
+				}
+			}
+			ns := 0
+			forEachInstr(cs, func(in ssa.Instruction) {
+				if !e.isSuccessReturn(in) {
+					return
+				}
+				ns++
+				r.guard("TBL-import-validators", "checkImportSettings accepts", in,
+					reqBool("the replica id is in the member list", ownLookup(1), true),
+					reqCmp("the address listed for the replica id == the host's RaftAddress", "==", fieldV(ra), ownLookup(0)))
+			})
+			r.floor("TBL-import-settings", ns, 1)
+		}
 		r.check(okA && hasLookup, "TBL-import-validators", "checkImportSettings requires the replica in the list at the host's raft address", e.pos(cs.Pos()), "own id listed at own address", "checkImportSettings no longer checks the replica's presence and address")
 	}
 	// ---- the rewritten record
@@ -366,6 +398,26 @@ func runC20(e *Engine, r *Report) {
 				}
 			}
 			r.check(okw, "MPT-import-batch", strings.TrimPrefix(w, "(*internal/logdb.db).")+" goes into the batch before the commit", e.pos(di.Pos()), "part of the single batch", "the import batch no longer contains "+w)
+		}
+		// inside a write batch later operations win: the sweep that deletes the
+		// replica's previous records (which can include a snapshot record at the
+		// imported index) must come before every record the import writes
+		if rm := e.Func("(*internal/logdb.db).saveRemoveNodeData"); rm != nil {
+			isRm := func(in ssa.Instruction) bool {
+				c, ok := in.(*ssa.Call)
+				return ok && e.CallsTo(c, rm)
+			}
+			for _, w := range want[1:] {
+				f := e.Func(w)
+				if f == nil {
+					continue
+				}
+				for _, ws := range e.SitesIn(di, f) {
+					res := e.findPath(di, ws.(ssa.Instruction), isRm, nil, nil)
+					r.check(!res.Found, "MPT-import-batch", strings.TrimPrefix(w, "(*internal/logdb.db).")+" is put into the batch after the delete sweep", e.ipos(ws),
+						"nothing the import writes is deleted again by the same batch", "the import writes a record and then adds the sweep that deletes the replica's old records to the same batch: an existing record at the imported index makes the sweep delete what was just written")
+				}
+			}
 		}
 		// state: term and commit from the snapshot
 		stTerm, stCommit := e.Field("raftpb", "State", "Term"), e.Field("raftpb", "State", "Commit")
